@@ -1605,6 +1605,18 @@ pub fn check_duplicates(cfg: &Config, tr: &Trace) -> Vec<Violation> {
     if !matches!(tr.events.last().map(|e| &e.ev), Some(Ev::Finished)) {
         out.push(v("C03", "run-finished", "run-Finished is not the last item".into()));
     }
+    if cfg.fail_fast() {
+        // "every started feature and rule still gets its Finished"
+        let rs = tr.events.iter().filter(|e| matches!(e.ev, Ev::RuleStarted(..))).count();
+        let rf = tr.events.iter().filter(|e| matches!(e.ev, Ev::RuleFinished(..))).count();
+        if fs != ff || rs != rf {
+            out.push(v(
+                "C08",
+                "unclosed-bracket",
+                format!("fail-fast: {fs} features started and {ff} finished, {rs} rules started and {rf} finished"),
+            ));
+        }
+    }
     // limit
     if let Some(k) = cfg.limit() {
         let mut fl = 0i64;
